@@ -356,4 +356,269 @@ Section Sound.
       destruct Hin as (_ & _ & ->). apply Z.eqb_eq. apply balance_eq_owned. exact HI.
     - unfold obs_of. cbn [o_bal]. apply nodupb_true. apply keys_obs_bal_nodup. exact Hc.
   Qed.
+
+  (** *** what a successful message did, as needed by the step clauses *)
+  Lemma get_set_ne_None {K V} `{EqDec K} (k k0 : K) (v : V) m : get k0 (set k v m) <> None -> k0 = k \/ get k0 m <> None.
+  Proof. rewrite get_set. destruct (eq_dec k0 k); auto. Qed.
+
+  Lemma classes_backward s msg s' c : exec_msg s msg = Some s' ->
+    get c (classes s') <> None ->
+    get c (classes s) <> None \/ (exists a mr ur d o, msg = IssueDenom a c mr ur d o).
+  Proof.
+    intros He Hc.
+    destruct msg as [a c0 mr ur d0 o0|a c0 t0 n u h d r|a c0 t0 n u h d|a c0 t0 n u h d r|a c0 t0|a c0 r]; simpl in He.
+    - apply issue_ok in He. destruct He as (_ & _ & _ & ->). simpl in Hc. apply get_set_ne_None in Hc.
+      destruct Hc as [->|Hc]; [right; do 5 eexists; reflexivity|left; exact Hc].
+    - apply mint_ok in He. destruct He as (cl & _ & _ & _ & _ & _ & ->). left. exact Hc.
+    - apply edit_ok in He. destruct He as (cl & _ & _ & _ & [[_ ->]|(m0 & _ & ->)]); left; exact Hc.
+    - apply transfer_ok in He. destruct He as (cl & m0 & _ & _ & _ & _ & _ & [[_ ->]| ->]); left; exact Hc.
+    - apply burn_ok in He. destruct He as (_ & _ & ->). left. exact Hc.
+    - apply handover_ok in He. destruct He as (cl & Hc0 & _ & _ & ->). simpl in Hc. apply get_set_ne_None in Hc.
+      left. destruct Hc as [->|Hc]; [congruence|exact Hc].
+  Qed.
+
+  Lemma tokens_backward s msg s' k : exec_msg s msg = Some s' ->
+    get k (nfts s') <> None ->
+    get k (nfts s) <> None \/ (exists a n u h d r, msg = Mint a (fst k) (snd k) n u h d r).
+  Proof.
+    intros He Hk.
+    destruct msg as [a c0 mr ur d0 o0|a c0 t0 n u h d r|a c0 t0 n u h d|a c0 t0 n u h d r|a c0 t0|a c0 r]; simpl in He.
+    - apply issue_ok in He. destruct He as (_ & _ & _ & ->). left. exact Hk.
+    - apply mint_ok in He. destruct He as (cl & _ & _ & _ & _ & _ & ->). simpl in Hk. apply get_set_ne_None in Hk.
+      destruct Hk as [->|Hk]; [right; do 6 eexists; reflexivity|left; exact Hk].
+    - apply edit_ok in He. destruct He as (cl & _ & _ & _ & [[_ ->]|(m0 & Hm0 & ->)]); [left; exact Hk|].
+      simpl in Hk. apply get_set_ne_None in Hk. left. destruct Hk as [->|Hk]; [congruence|exact Hk].
+    - apply transfer_ok in He. destruct He as (cl & m0 & _ & Hm0 & _ & _ & _ & [[_ ->]| ->]); [left; exact Hk|].
+      simpl in Hk. apply get_set_ne_None in Hk. left. destruct Hk as [->|Hk]; [congruence|exact Hk].
+    - apply burn_ok in He. destruct He as (_ & _ & ->). simpl in Hk. rewrite get_del in Hk.
+      left. destruct (eq_dec k (c0, t0)); [congruence|exact Hk].
+    - apply handover_ok in He. destruct He as (cl & _ & _ & _ & ->). left. exact Hk.
+  Qed.
+
+  Lemma transfer_effect s a c t n u h d r s' : exec_msg s (Transfer a c t n u h d r) = Some s' ->
+    exists m, get (c, t) (nfts s) = Some m /\ get (c, t) (owners s) = Some a
+              /\ get (c, t) (nfts s') = Some (apply_changes m n u h d) /\ get (c, t) (owners s') = Some r.
+  Proof.
+    simpl. intros He. apply transfer_ok in He. destruct He as (cl & m & _ & Hm & Ha & _ & _ & [[Hch ->]| ->]); exists m; simpl.
+    - rewrite (apply_nochange m n u h d Hch), get_set_same. auto.
+    - rewrite !get_set_same. auto.
+  Qed.
+
+  Lemma edit_effect s a c t n u h d s' : Inv s -> exec_msg s (Edit a c t n u h d) = Some s' ->
+    exists m, get (c, t) (nfts s) = Some m /\ get (c, t) (owners s) = Some a
+              /\ get (c, t) (nfts s') = Some (apply_changes m n u h d) /\ get (c, t) (owners s') = Some a.
+  Proof.
+    intros (_ & _ & Hiff & _). simpl. intros He. apply edit_ok in He.
+    destruct He as (cl & _ & _ & Ha & [[Hch ->]|(m & Hm & ->)]).
+    - destruct (get (c, t) (nfts s)) as [m|] eqn:Hm.
+      + exists m. rewrite (apply_nochange m n u h d Hch). auto.
+      + exfalso. assert (Hx : get (c, t) (nfts s) <> None) by (apply Hiff; congruence). congruence.
+    - exists m. simpl. rewrite get_set_same. auto.
+  Qed.
+
+  Lemma burn_effect s a c t s' : exec_msg s (Burn a c t) = Some s' ->
+    get (c, t) (owners s) = Some a /\ get (c, t) (nfts s) <> None /\ get (c, t) (nfts s') = None.
+  Proof.
+    simpl. intros He. apply burn_ok in He. destruct He as (Ha & Hm & ->). simpl. rewrite get_del_same. auto.
+  Qed.
+
+  Lemma creator_with cl r : c_creator (c_with_creator cl r) = r.
+  Proof. destruct cl as [[[[a m] u] d] o]. reflexivity. Qed.
+
+  (** *** clauses 5, 4, 3, 6, 7 on two consecutive model observations *)
+  Notation code_of s st := (if ok s st then 0 else 1).
+
+  Lemma quiet_code s st : next s st = s /\ (st = Block \/ ok s st = false) ->
+    st = Block \/ okk (obs_of (next s st) (code_of s st)) = false.
+  Proof. intros [_ [Hb|Hf]]; [left; exact Hb|right]. unfold okk, obs_of. cbn [o_code]. rewrite Hf. reflexivity. Qed.
+
+  Lemma in_tokens_has s k v : In (k, v) (obs_tokens s) -> has k (obs_tokens s) = true.
+  Proof.
+    intros Hin. apply has_true. apply get_in_keys. change (In k (map fst (obs_tokens s))). apply in_map_iff. exists (k, v). auto.
+  Qed.
+  Lemma in_classes_has s c cl : In (c, cl) (classes s) -> has c (classes s) = true.
+  Proof.
+    intros Hin. apply has_true. apply get_in_keys. change (In c (map fst (classes s))). apply in_map_iff. exists (c, cl). auto.
+  Qed.
+
+  Lemma p_frozen_sound s st c0 : Inv s ->
+    p_frozen (obs_of s c0) (obs_of (next s st) (code_of s st)) = true.
+  Proof.
+    intros HI. unfold p_frozen, oclass, otok, obs_of. cbn [o_tokens o_classes].
+    apply forallb_forall. intros [[c t] [a m]] Hin. destruct (in_obs_tokens s (c, t) a m HI Hin) as [Hm Ha].
+    destruct (get c (classes s)) as [cl|] eqn:Hc; [|reflexivity]. destruct (c_updr cl) eqn:Hu; [|reflexivity].
+    destruct (next_cases s st) as [[Hn _]|(msg & s' & -> & He & Hn & _)]; rewrite Hn.
+    - rewrite (tok_some s (c, t) a m Hm Ha). apply eqb_refl.
+    - destruct (frozen_step s msg s' c t cl m HI He Hc Hu Hm) as [Hm'|(a' & _ & _ & Hm')].
+      + rewrite get_obs_tokens, Hm'. apply eqb_refl.
+      + rewrite (tok_none s' (c, t) Hm'). reflexivity.
+  Qed.
+
+  Lemma tokens_subset_quiet s : forallb (fun '(k, _) => has k (obs_tokens s)) (obs_tokens s) = true.
+  Proof. apply forallb_forall. intros [k v] Hin. eapply in_tokens_has. exact Hin. Qed.
+
+  Lemma tokens_subset_step s msg s' : exec_msg s msg = Some s' ->
+    (forall a c t n u h d r, msg <> Mint a c t n u h d r) ->
+    forallb (fun '(k, _) => has k (obs_tokens s)) (obs_tokens s') = true.
+  Proof.
+    intros He Hnm. apply forallb_forall. intros [k v] Hin. rewrite has_obs_tokens. apply has_true.
+    assert (Hk : get k (nfts s') <> None).
+    { apply in_tokens_has in Hin. rewrite has_obs_tokens in Hin. apply has_true. exact Hin. }
+    destruct (tokens_backward s msg s' k He Hk) as [H1|(a & n & u & h & d & r & Heq)]; [exact H1|].
+    exfalso. eapply Hnm. exact Heq.
+  Qed.
+
+  Lemma p_mint_sound s st c0 : Inv s -> Inv (next s st) ->
+    p_mint (obs_of s c0) (obs_of (next s st) (code_of s st)) st = true.
+  Proof.
+    intros HI HI'. unfold p_mint.
+    destruct (next_cases s st) as [Hq|(msg & s' & -> & He & Hn & Hok)].
+    - pose proof (quiet_code s st Hq) as Hk. destruct Hq as [Hn _]. rewrite Hn in *.
+      assert (Hsub := tokens_subset_quiet s).
+      destruct st as [[a c mr ur d o|a c t n u h d r|a c t n u h d|a c t n u h d r|a c t|a c r]|]; try exact Hsub.
+      destruct Hk as [Hk|Hk]; [discriminate|]. rewrite Hk. exact Hsub.
+    - rewrite Hn, Hok in *.
+      destruct msg as [a c mr ur d o|a c t n u h d r|a c t n u h d|a c t n u h d r|a c t|a c r];
+        try (apply (tokens_subset_step s _ s' He); intros; discriminate).
+      change (okk (obs_of s' 0)) with true. cbv iota.
+      destruct (mint_lemma s a c t n u h d r s' He) as ((cl & Hc & Hr) & Hfree & Hm' & Ho' & Hframe & _).
+      unfold oclass, otok, obs_of. cbn [o_classes o_tokens]. rewrite Hc.
+      rewrite has_obs_tokens. unfold has at 1. rewrite Hfree. simpl.
+      rewrite (tok_some s' (c, t) r (n, u, h, d) Hm' Ho'), eqb_refl. simpl.
+      rewrite !Bool.andb_true_r.
+      apply andb_true_intro. split.
+      + destruct (c_mintr cl) eqn:Hmr; [|reflexivity]. simpl. apply Z.eqb_eq. apply Hr. reflexivity.
+      + apply forallb_forall. intros [k v] Hin. destruct (eq_dec k (c, t)) as [->|Hne].
+        * rewrite eqb_refl. apply Bool.orb_true_r.
+        * apply Bool.orb_true_iff. left. rewrite has_obs_tokens. apply has_true.
+          apply in_tokens_has in Hin. rewrite has_obs_tokens in Hin. apply has_true in Hin.
+          destruct (Hframe k Hne) as [E _]. rewrite <- E. exact Hin.
+  Qed.
+
+  Lemma p_auth_sound s st c0 : Inv s -> Inv (next s st) ->
+    p_auth (obs_of s c0) (obs_of (next s st) (code_of s st)) st = true.
+  Proof.
+    intros HI HI'. unfold p_auth. apply andb_true_intro. split.
+    - (* the step itself *)
+      destruct (next_cases s st) as [Hq|(msg & s' & -> & He & Hn & Hok)].
+      + pose proof (quiet_code s st Hq) as Hk. destruct Hk as [->|Hk]; [reflexivity|]. rewrite Hk. reflexivity.
+      + rewrite Hn, Hok. change (okk (obs_of s' 0)) with true. cbv iota.
+        destruct msg as [a c mr ur d o|a c t n u h d r|a c t n u h d|a c t n u h d r|a c t|a c r]; try reflexivity;
+          unfold otok, obs_of; cbn [o_tokens].
+        * destruct (edit_effect s a c t n u h d s' HI He) as (m & Hm & Ha & Hm' & Ha').
+          rewrite (tok_some s (c, t) a m Hm Ha), (tok_some s' (c, t) a _ Hm' Ha'), Z.eqb_refl, eqb_refl. reflexivity.
+        * destruct (transfer_effect s a c t n u h d r s' He) as (m & Hm & Ha & Hm' & Ha').
+          rewrite (tok_some s (c, t) a m Hm Ha), (tok_some s' (c, t) r _ Hm' Ha'), Z.eqb_refl, eqb_refl. reflexivity.
+        * destruct (burn_effect s a c t s' He) as (Ha & Hm & Hm').
+          destruct (get (c, t) (nfts s)) as [m|] eqn:Hg; [|congruence].
+          rewrite (tok_some s (c, t) a m Hg Ha), Z.eqb_refl, has_obs_tokens. unfold has. rewrite Hm'. reflexivity.
+    - (* every token of the previous observation *)
+      apply forallb_forall. intros [[c t] [a m]] Hin. unfold obs_of in Hin. cbn [o_tokens] in Hin.
+      destruct (in_obs_tokens s (c, t) a m HI Hin) as [Hm Ha].
+      destruct (next_cases s st) as [[Hn _]|(msg & s' & -> & He & Hn & Hok)]; rewrite Hn; unfold otok at 1, obs_of at 1; cbn [o_tokens].
+      + rewrite (tok_some s (c, t) a m Hm Ha), Z.eqb_refl, eqb_refl. reflexivity.
+      + rewrite Hok. change (okk (obs_of s' 0)) with true.
+        destruct (token_step s msg s' c t m a He Hm Ha) as [[H1 H2]|[(n & u & h & d & r & -> & H1 & H2)|[(n & u & h & d & -> & H1 & H2)|(-> & H1 & H2)]]].
+        * rewrite (tok_some s' (c, t) a m H1 H2), Z.eqb_refl, eqb_refl. reflexivity.
+        * rewrite (tok_some s' (c, t) r _ H1 H2), !Z.eqb_refl, eqb_refl. simpl. rewrite !Bool.orb_true_r. reflexivity.
+        * rewrite (tok_some s' (c, t) a _ H1 H2), !Z.eqb_refl, eqb_refl. simpl. rewrite !Bool.orb_true_r. reflexivity.
+        * rewrite (tok_none s' (c, t) H1), !Z.eqb_refl. reflexivity.
+  Qed.
+
+  Lemma classes_subset_quiet s : forallb (fun '(c', _) => has c' (classes s)) (classes s) = true.
+  Proof. apply forallb_forall. intros [c cl] Hin. eapply in_classes_has. exact Hin. Qed.
+
+  Lemma classes_subset_step s msg s' : exec_msg s msg = Some s' ->
+    (forall a c mr ur d o, msg <> IssueDenom a c mr ur d o) ->
+    forallb (fun '(c', _) => has c' (classes s)) (classes s') = true.
+  Proof.
+    intros He Hni. apply forallb_forall. intros [c cl] Hin. apply has_true.
+    assert (Hc : get c (classes s') <> None) by (apply has_true; eapply in_classes_has; exact Hin).
+    destruct (classes_backward s msg s' c He Hc) as [H1|(a & mr & ur & d & o & Heq)]; [exact H1|].
+    exfalso. eapply Hni. exact Heq.
+  Qed.
+
+  Lemma p_class_sound s st c0 : Inv2 s ->
+    p_class (obs_of s c0) (obs_of (next s st) (code_of s st)) st = true.
+  Proof.
+    intros (Hcn & _). unfold p_class. apply andb_true_intro. split; [apply andb_true_intro; split|].
+    - (* every class of the previous observation *)
+      apply forallb_forall. intros [c cl] Hin. unfold obs_of in Hin. cbn [o_classes] in Hin.
+      pose proof (In_get c cl _ Hcn Hin) as Hc.
+      destruct (next_cases s st) as [[Hn _]|(msg & s' & -> & He & Hn & Hok)]; rewrite Hn; unfold oclass at 1, obs_of at 1; cbn [o_classes].
+      + rewrite Hc, eqb_refl, Z.eqb_refl. reflexivity.
+      + rewrite Hok. change (okk (obs_of s' 0)) with true.
+        destruct (class_step s msg s' c cl He Hc) as [Hc'|(r & -> & Hc')]; rewrite Hc'.
+        * rewrite eqb_refl, Z.eqb_refl. reflexivity.
+        * rewrite with_creator_twice, eqb_refl, creator_with, !Z.eqb_refl. simpl. apply Bool.orb_true_r.
+    - (* a hand-over *)
+      destruct (next_cases s st) as [Hq|(msg & s' & -> & He & Hn & Hok)].
+      + pose proof (quiet_code s st Hq) as Hk. destruct Hk as [->|Hk]; [reflexivity|].
+        destruct st as [[a c mr ur d o|a c t n u h d r|a c t n u h d|a c t n u h d r|a c t|a c r]|]; try reflexivity.
+        rewrite Hk. reflexivity.
+      + rewrite Hn, Hok. change (okk (obs_of s' 0)) with true.
+        destruct msg as [a c mr ur d o|a c t n u h d r|a c t n u h d|a c t n u h d r|a c t|a c r]; try reflexivity.
+        cbv iota. simpl in He. apply handover_ok in He. destruct He as (cl & Hc & Ha & _ & ->).
+        unfold oclass, obs_of. cbn [o_classes]. simpl. rewrite Hc, get_set_same, creator_with, Ha, !Z.eqb_refl. reflexivity.
+    - (* an issue, or no new class *)
+      destruct (next_cases s st) as [Hq|(msg & s' & -> & He & Hn & Hok)].
+      + pose proof (quiet_code s st Hq) as Hk. destruct Hq as [Hn _]. rewrite Hn in *.
+        assert (Hsub := classes_subset_quiet s).
+        destruct st as [[a c mr ur d o|a c t n u h d r|a c t n u h d|a c t n u h d r|a c t|a c r]|]; try exact Hsub.
+        destruct Hk as [Hk|Hk]; [discriminate|]. rewrite Hk. exact Hsub.
+      + rewrite Hn, Hok.
+        destruct msg as [a c mr ur d o|a c t n u h d r|a c t n u h d|a c t n u h d r|a c t|a c r];
+          try (apply (classes_subset_step s _ s' He); intros; discriminate).
+        change (okk (obs_of s' 0)) with true. cbv iota.
+        destruct (issue_lemma s a c mr ur d o s' He) as (Hfree & Hc' & Hframe & _).
+        unfold oclass, obs_of. cbn [o_classes]. unfold has at 1. rewrite Hfree, Hc', eqb_refl. simpl.
+        apply forallb_forall. intros [c' cl'] Hin. destruct (Z.eq_dec c' c) as [->|Hne].
+        * rewrite Z.eqb_refl. apply Bool.orb_true_r.
+        * apply Bool.orb_true_iff. left. apply has_true. rewrite <- (Hframe c' Hne). apply has_true. eapply in_classes_has. exact Hin.
+  Qed.
+
+  Lemma p_frame_sound s st c0 : Inv s -> Inv2 s ->
+    p_frame (obs_of s c0) (obs_of (next s st) (code_of s st)) st = true.
+  Proof.
+    intros (_ & Hnd & _) (Hc & _ & Hs & _). unfold p_frame.
+    destruct (next_cases s st) as [Hq|(msg & s' & -> & He & Hn & Hok)].
+    - destruct Hq as [Hn _]. rewrite Hn. unfold obs_of at 2 3 4 5 6 7 8 9. cbn [o_classes o_tokens o_supply o_owned].
+      rewrite (map_eqb_refl _ Hc), (zmap_eqb_refl _ Hs), set_eqb_refl.
+      rewrite map_eqb_refl by (rewrite keys_obs_tokens; exact Hnd). apply Bool.orb_true_r.
+    - rewrite Hn, Hok. reflexivity.
+  Qed.
+
+  (** *** the checker on a model trace *)
+  Lemma prop_sound s st c0 : Inv s -> Inv2 s -> Inv (next s st) -> Inv2 (next s st) ->
+    prop_step (obs_of s c0) (obs_of (next s st) (code_of s st)) st = 0.
+  Proof.
+    intros HI HI2 HI' HI2'. unfold prop_step.
+    rewrite (p_owner_sound _ _ HI' HI2'), (p_supply_sound _ _ HI' HI2'), (p_frozen_sound s st c0 HI),
+      (p_mint_sound s st c0 HI HI'), (p_auth_sound s st c0 HI HI'), (p_class_sound s st c0 HI2), (p_frame_sound s st c0 HI HI2).
+    reflexivity.
+  Qed.
+
+  Lemma Inv2_next s st : Inv2 s -> step_covered st -> Inv2 (next s st).
+  Proof.
+    intros HI2 Hcov. destruct (next_cases s st) as [[-> _]|(msg & s' & -> & He & -> & _)]; [exact HI2|].
+    exact (Inv2_step s msg s' HI2 Hcov He).
+  Qed.
+
+  Lemma check_sound steps : forall s c0 i, Inv s -> Inv2 s -> Forall step_covered steps ->
+    check_from s (obs_of s c0) (model_trace s steps) i (-1) (-1) 0 = (-1, -1, 0).
+  Proof.
+    induction steps as [|st rest IH]; intros s c0 i HI HI2 Hcov; [reflexivity|].
+    inversion Hcov as [|? ? Hst Hrest]; subst.
+    pose proof (step_inv s st HI) as HI'. pose proof (Inv2_next s st HI2 Hst) as HI2'.
+    cbn [model_trace check_from].
+    rewrite (corr_sound s st HI' HI2'), (prop_sound s st c0 HI HI2 HI' HI2'). simpl.
+    apply IH; assumption.
+  Qed.
+
+  Lemma model_passes_check_lemma steps : Forall step_covered steps ->
+    check_case (model_trace init steps) = (-1, -1, 0).
+  Proof.
+    intros Hcov. unfold check_case. change obs0 with (obs_of init 0).
+    apply check_sound; [apply Inv_init|apply Inv2_init|exact Hcov].
+  Qed.
 End Sound.
